@@ -1,6 +1,7 @@
 package props
 
 import (
+	"os"
 	"fmt"
 	"go/ast"
 	"go/token"
@@ -129,6 +130,18 @@ func (z *zipCtx) config(inline bool) paths.Config {
 						out = append(out, paths.Event{Kind: "FIRSTTIME", Arg: rs, Pos: v.Pos()})
 					case ls == "p" && strings.Contains(rs, "NewZipPack()"):
 						out = append(out, paths.Event{Kind: "NEWPACK", Pos: v.Pos()})
+					default:
+						// a local used as the batch's record counter
+						if id, ok := ast.Unparen(l).(*ast.Ident); ok && isIntLocal(info, id) {
+							switch {
+							case (v.Tok == token.ASSIGN || v.Tok == token.DEFINE) && rs == "0":
+								out = append(out, paths.Event{Kind: "LZERO", Arg: id.Name, Pos: v.Pos()})
+							case v.Tok == token.ADD_ASSIGN && rs == "1", (v.Tok == token.ASSIGN) && (rs == id.Name+"+1" || rs == "1+"+id.Name):
+								out = append(out, paths.Event{Kind: "LINC", Arg: id.Name, Pos: v.Pos()})
+							default:
+								out = append(out, paths.Event{Kind: "LSET", Arg: id.Name, Pos: v.Pos()})
+							}
+						}
 					}
 				}
 			case *ast.IncDecStmt:
@@ -138,6 +151,13 @@ func (z *zipCtx) config(inline bool) paths.Config {
 				}
 				if ls == "packCount" {
 					out = append(out, paths.Event{Kind: "PACKCOUNT", Arg: v.Tok.String(), Pos: v.Pos()})
+				}
+				if id, ok := ast.Unparen(v.X).(*ast.Ident); ok && isIntLocal(info, id) {
+					if v.Tok == token.INC {
+						out = append(out, paths.Event{Kind: "LINC", Arg: id.Name, Pos: v.Pos()})
+					} else {
+						out = append(out, paths.Event{Kind: "LSET", Arg: id.Name, Pos: v.Pos()})
+					}
 				}
 			}
 			ast.Inspect(n, func(m ast.Node) bool {
@@ -189,7 +209,7 @@ func runC16(p *core.Program, r *core.Report) {
 	r.Rule("C16.zip-complete", "the gzip stream handed back by DoZip is complete: the compressor's Close() has run before its buffer is read", 1)
 	gzipClosedBeforeRead(p, r, "C16.zip-complete", []string{"util/compressutil"})
 	c16Defaults(p, r)
-	for _, name := range []string{"Append", "sendAndClear", "SendDirect", "doZip", "run"} {
+	for _, name := range []string{"Append", "sendAndClear", "SendDirect", "run"} {
 		if zipMethod(p, name) == nil {
 			r.Undec("C16.count", "logsink/zip.(*ZipSendProxyThread)."+name, "-", "method not found")
 		}
@@ -206,7 +226,6 @@ func c16Defaults(p *core.Program, r *core.Report) {
 	info := fi.Pkg.TypesInfo
 	want := map[string]int64{"logsinkMaxBufferSize": 64 * 1024, "logsinkMaxWaitTime": 5000, "logsinkZipMinSize": 100, "logsinkQueueSize": 1000}
 	val := map[string]string{} // field -> value text ("const:n", "zero", "?")
-	var exec func(list []ast.Stmt)
 	// the option struct: the local handed to the option functions inside the loop over the variadic
 	// options (whatever it is called); on the no-options path all of its fields are zero
 	var optObj types.Object
@@ -232,29 +251,68 @@ func c16Defaults(p *core.Program, r *core.Report) {
 		})
 		return true
 	})
-	zeroCfg := func(e ast.Expr) bool { // <opt>.X where <opt> is the fresh option struct
-		sel, ok := ast.Unparen(e).(*ast.SelectorExpr)
-		if !ok {
-			return false
+	// a small interpreter of the no-options path: option-struct objects whose fields are all zero
+	// (the fresh struct, and a helper's receiver/parameter bound to it), locals with known values,
+	// helpers (one or several results, named or not) run on their own environment
+	type dflEnv struct {
+		info     *types.Info
+		zero     map[types.Object]bool
+		loc      map[types.Object]string
+		maybeRet bool
+	}
+	var eval func(env *dflEnv, e ast.Expr) string
+	var callHelper func(env *dflEnv, call *ast.CallExpr, depth int) []string
+	isZeroStruct := func(env *dflEnv, e ast.Expr) bool {
+		e = ast.Unparen(e)
+		if u, ok := e.(*ast.UnaryExpr); ok && u.Op == token.AND {
+			e = ast.Unparen(u.X)
 		}
-		id, ok := ast.Unparen(sel.X).(*ast.Ident)
-		return ok && optObj != nil && info.ObjectOf(id) == optObj
+		if st, ok := e.(*ast.StarExpr); ok {
+			e = ast.Unparen(st.X)
+		}
+		id, ok := e.(*ast.Ident)
+		return ok && env.zero[env.info.ObjectOf(id)]
+	}
+	depthOf := 0
+	eval = func(env *dflEnv, e ast.Expr) string {
+		e = ast.Unparen(e)
+		if n, ok := constIntOf(env.info, e); ok {
+			return fmt.Sprintf("const:%d", n)
+		}
+		switch v := e.(type) {
+		case *ast.SelectorExpr:
+			if isZeroStruct(env, v.X) {
+				return "const:0"
+			}
+		case *ast.Ident:
+			if s, ok := env.loc[env.info.ObjectOf(v)]; ok {
+				return s
+			}
+		case *ast.CallExpr:
+			if tv, ok := env.info.Types[v.Fun]; ok && tv.IsType() && len(v.Args) == 1 {
+				return eval(env, v.Args[0])
+			}
+			if rs := callHelper(env, v, depthOf+1); len(rs) == 1 {
+				return rs[0]
+			}
+		}
+		return "?" + types.ExprString(e)
 	}
 	// truth of a condition when every option field is zero: (value, known)
-	var zeroCond func(e ast.Expr) (bool, bool)
-	zeroCond = func(e ast.Expr) (bool, bool) {
+	var zeroCond func(env *dflEnv, e ast.Expr) (bool, bool)
+	zeroCond = func(env *dflEnv, e ast.Expr) (bool, bool) {
 		e = ast.Unparen(e)
 		switch v := e.(type) {
 		case *ast.UnaryExpr:
 			if v.Op == token.NOT {
-				b, ok := zeroCond(v.X)
+				b, ok := zeroCond(env, v.X)
 				return !b, ok
 			}
 		case *ast.BinaryExpr:
 			switch v.Op {
 			case token.LAND, token.LOR:
-				a, ok1 := zeroCond(v.X)
-				b, ok2 := zeroCond(v.Y)
+				a, ok1 := zeroCond(env, v.X)
+				b, ok2 := zeroCond(env, v.Y)
 				if v.Op == token.LAND {
 					if (ok1 && !a) || (ok2 && !b) {
 						return false, true
@@ -266,79 +324,227 @@ func c16Defaults(p *core.Program, r *core.Report) {
 				}
 				return a || b, ok1 && ok2
 			case token.EQL, token.NEQ, token.LSS, token.LEQ, token.GTR, token.GEQ:
-				x, y, op := v.X, v.Y, v.Op
-				if !zeroCfg(x) && zeroCfg(y) {
-					x, y, op = y, x, flipOp(op)
+				xs, ys := eval(env, v.X), eval(env, v.Y)
+				var x, y int64
+				if _, err := fmt.Sscanf(xs, "const:%d", &x); err != nil {
+					return false, false
 				}
-				if zeroCfg(x) {
-					if k, ok := constIntOf(info, y); ok {
-						switch op {
-						case token.EQL:
-							return 0 == k, true
-						case token.NEQ:
-							return 0 != k, true
-						case token.LSS:
-							return 0 < k, true
-						case token.LEQ:
-							return 0 <= k, true
-						case token.GTR:
-							return 0 > k, true
-						case token.GEQ:
-							return 0 >= k, true
-						}
-					}
+				if _, err := fmt.Sscanf(ys, "const:%d", &y); err != nil {
+					return false, false
+				}
+				switch v.Op {
+				case token.EQL:
+					return x == y, true
+				case token.NEQ:
+					return x != y, true
+				case token.LSS:
+					return x < y, true
+				case token.LEQ:
+					return x <= y, true
+				case token.GTR:
+					return x > y, true
+				case token.GEQ:
+					return x >= y, true
 				}
 			}
 		}
 		return false, false
 	}
-	exec = func(list []ast.Stmt) {
+	// run: executes a statement list; a return statement's values come back as (values, true)
+	var run func(env *dflEnv, list []ast.Stmt, results []types.Object, sure bool) ([]string, bool)
+	assign := func(env *dflEnv, l ast.Expr, s string) {
+		switch lv := ast.Unparen(l).(type) {
+		case *ast.SelectorExpr:
+			if _, tracked := want[lv.Sel.Name]; tracked && !isZeroStruct(env, lv.X) {
+				val[lv.Sel.Name] = s
+			}
+		case *ast.Ident:
+			if o := env.info.ObjectOf(lv); o != nil {
+				env.loc[o] = s
+			}
+		}
+	}
+	run = func(env *dflEnv, list []ast.Stmt, results []types.Object, sure bool) ([]string, bool) {
 		for _, s := range list {
 			switch v := s.(type) {
 			case *ast.AssignStmt:
-				for i, l := range v.Lhs {
-					sel, ok := l.(*ast.SelectorExpr)
-					if !ok || i >= len(v.Rhs) {
-						continue
+				if len(v.Rhs) == 1 && len(v.Lhs) > 1 {
+					var rs []string
+					if call, ok := ast.Unparen(v.Rhs[0]).(*ast.CallExpr); ok {
+						rs = callHelper(env, call, depthOf+1)
 					}
-					if _, tracked := want[sel.Sel.Name]; !tracked {
-						continue
+					for i, l := range v.Lhs {
+						if i < len(rs) && sure {
+							assign(env, l, rs[i])
+						} else {
+							assign(env, l, "?"+types.ExprString(v.Rhs[0]))
+						}
 					}
-					if n, ok := constIntOf(info, v.Rhs[i]); ok {
-						val[sel.Sel.Name] = fmt.Sprintf("const:%d", n)
-					} else if zeroCfg(v.Rhs[i]) {
-						val[sel.Sel.Name] = "const:0"
+					continue
+				}
+				vals := make([]string, len(v.Lhs))
+				for i := range v.Lhs {
+					if i < len(v.Rhs) && v.Tok != token.ADD_ASSIGN && v.Tok != token.SUB_ASSIGN {
+						vals[i] = eval(env, v.Rhs[i])
 					} else {
-						val[sel.Sel.Name] = "?" + types.ExprString(v.Rhs[i])
+						vals[i] = "?"
+					}
+					if !sure {
+						// an assignment under an undecided condition may or may not happen
+						if lv, ok := ast.Unparen(v.Lhs[i]).(*ast.SelectorExpr); !ok || val[lv.Sel.Name] != vals[i] {
+							if id, isId := ast.Unparen(v.Lhs[i]).(*ast.Ident); !isId || env.loc[env.info.ObjectOf(id)] != vals[i] {
+								vals[i] = "?maybe " + strings.TrimPrefix(vals[i], "?")
+							}
+						}
+					}
+				}
+				for i, l := range v.Lhs {
+					assign(env, l, vals[i])
+				}
+			case *ast.DeclStmt:
+				if gd, ok := v.Decl.(*ast.GenDecl); ok {
+					for _, sp := range gd.Specs {
+						if vs, ok := sp.(*ast.ValueSpec); ok {
+							for i, n := range vs.Names {
+								if i < len(vs.Values) {
+									assign(env, n, eval(env, vs.Values[i]))
+								} else {
+									assign(env, n, "const:0")
+								}
+							}
+						}
 					}
 				}
 			case *ast.IfStmt:
-				// conditions over the zero option struct are decided; others may go either way
-				if b, known := zeroCond(v.Cond); known {
-					if b {
-						exec(v.Body.List)
+				if v.Init != nil {
+					if rs, done := run(env, []ast.Stmt{v.Init}, results, sure); done {
+						return rs, true
+					}
+				}
+				var arms [][]ast.Stmt
+				b, known := zeroCond(env, v.Cond)
+				elseList := func() []ast.Stmt {
+					if blk, ok := v.Else.(*ast.BlockStmt); ok {
+						return blk.List
 					} else if v.Else != nil {
-						if blk, ok := v.Else.(*ast.BlockStmt); ok {
-							exec(blk.List)
-						} else {
-							exec([]ast.Stmt{v.Else})
+						return []ast.Stmt{v.Else}
+					}
+					return nil
+				}
+				if known {
+					if b {
+						arms = [][]ast.Stmt{v.Body.List}
+					} else {
+						arms = [][]ast.Stmt{elseList()}
+					}
+					for _, a := range arms {
+						if rs, done := run(env, a, results, sure); done {
+							return rs, true
 						}
 					}
 				} else {
-					// unrelated condition: both arms may run; only tracked-field assignments matter
-					exec(v.Body.List)
-					if blk, ok := v.Else.(*ast.BlockStmt); ok {
-						exec(blk.List)
-					} else if v.Else != nil {
-						exec([]ast.Stmt{v.Else})
+					// unrelated condition: both arms may run
+					// (an arm that returns ends its own path only; a helper that may have returned
+					// early has no decided result)
+					for _, a := range [][]ast.Stmt{v.Body.List, elseList()} {
+						if _, done := run(env, a, results, false); done {
+							env.maybeRet = true
+						}
 					}
 				}
+			case *ast.BlockStmt:
+				if rs, done := run(env, v.List, results, sure); done {
+					return rs, true
+				}
+			case *ast.ReturnStmt:
+				var rs []string
+				if len(v.Results) == 0 {
+					for _, o := range results {
+						rs = append(rs, env.loc[o])
+					}
+				} else if len(v.Results) == 1 && len(results) > 1 {
+					if call, ok := ast.Unparen(v.Results[0]).(*ast.CallExpr); ok {
+						rs = callHelper(env, call, depthOf+1)
+					}
+				} else {
+					for _, e := range v.Results {
+						rs = append(rs, eval(env, e))
+					}
+				}
+				return rs, true
 			case *ast.RangeStmt:
 				// options loop: not taken on the no-options path
 			}
 		}
+		return nil, false
 	}
-	exec(fi.Decl.Body.List)
+	callHelper = func(env *dflEnv, call *ast.CallExpr, depth int) []string {
+		if depth > 4 {
+			return nil
+		}
+		var fn *types.Func
+		var recvExpr ast.Expr
+		switch f := ast.Unparen(call.Fun).(type) {
+		case *ast.Ident:
+			fn, _ = env.info.Uses[f].(*types.Func)
+		case *ast.SelectorExpr:
+			fn, _ = env.info.Uses[f.Sel].(*types.Func)
+			if _, isPkg := env.info.Uses[identOf(f.X)].(*types.PkgName); !isPkg {
+				recvExpr = f.X
+			}
+		}
+		if fn == nil {
+			return nil
+		}
+		hf := p.FuncOf(fn)
+		if hf == nil || hf.Decl.Body == nil {
+			return nil
+		}
+		sub := &dflEnv{info: hf.Pkg.TypesInfo, zero: map[types.Object]bool{}, loc: map[types.Object]string{}}
+		if recvExpr != nil && hf.Decl.Recv != nil && len(hf.Decl.Recv.List) == 1 && len(hf.Decl.Recv.List[0].Names) == 1 {
+			ro := sub.info.Defs[hf.Decl.Recv.List[0].Names[0]]
+			if isZeroStruct(env, recvExpr) {
+				sub.zero[ro] = true
+			}
+		}
+		i := 0
+		for _, f := range hf.Decl.Type.Params.List {
+			for _, n := range f.Names {
+				if i < len(call.Args) {
+					po := sub.info.Defs[n]
+					if isZeroStruct(env, call.Args[i]) {
+						sub.zero[po] = true
+					} else {
+						sub.loc[po] = eval(env, call.Args[i])
+					}
+				}
+				i++
+			}
+		}
+		var results []types.Object
+		if hf.Decl.Type.Results != nil {
+			for _, f := range hf.Decl.Type.Results.List {
+				for _, n := range f.Names {
+					o := sub.info.Defs[n]
+					results = append(results, o)
+					sub.loc[o] = "const:0"
+				}
+			}
+		}
+		old := depthOf
+		depthOf = depth
+		rs, _ := run(sub, hf.Decl.Body.List, results, true)
+		depthOf = old
+		if sub.maybeRet {
+			return nil
+		}
+		return rs
+	}
+	top := &dflEnv{info: info, zero: map[types.Object]bool{}, loc: map[types.Object]string{}}
+	if optObj != nil {
+		top.zero[optObj] = true
+	}
+	run(top, fi.Decl.Body.List, nil, true)
 	for f, w := range want {
 		c := "logsink/zip.GetInstance default " + f
 		got := val[f]
@@ -419,6 +625,9 @@ func c16Paths(p *core.Program, r *core.Report) {
 			}
 			fileProbs(r, "C16.count", name, pos, cnt, "count/reset discipline holds on every path")
 			fileProbs(r, "C16.alias", name, pos, alias, "Records is a copy or freshly compressed storage on every path reaching the client")
+			if tn == "ZipSendProxyThread" {
+				fileProbs(r, "C16.zip", name+" compression at send", pos, zipAtSend(ps), "compressed iff Status==0 && len(Records) >= min; ZIPPED exactly then")
+			}
 		case "SendDirect":
 			ps, over := paths.Enumerate(fi.Decl.Body, z.config(true))
 			if over {
@@ -426,13 +635,74 @@ func c16Paths(p *core.Program, r *core.Report) {
 				continue
 			}
 			var cnt, alias, zp []string
+			localCounter := false
+			incs := map[string]bool{}
+			for _, pa := range ps {
+				for _, e := range pa {
+					if e.Kind == "LINC" {
+						incs[e.Arg] = true
+					}
+				}
+			}
+			for _, pa := range ps {
+				for _, e := range pa {
+					if e.Kind == "SETCOUNT" && strings.HasPrefix(e.Arg, "=") && incs[strings.TrimPrefix(e.Arg, "=")] {
+						localCounter = true
+					}
+				}
+			}
 			for _, pa := range ps {
 				if !pa.Consistent() {
 					continue
 				}
+				// the count may be kept in a local and stored into the pack when it is built: then the
+				// rule is stated on values — at every send RecordCount equals the number of records
+				// written into the buffer since it was last reset
+				if os.Getenv("C16_DEBUG") != "" {
+					fmt.Fprintln(os.Stderr, "C16 SendDirect path:", pa.String())
+				}
+				if localCounter {
+					written, rc, known := 0, 0, true
+					loc := map[string]int{}
+					locKnown := map[string]bool{}
+					for _, e := range pa {
+						switch e.Kind {
+						case "WRITE":
+							written++
+						case "RESET":
+							written = 0
+						case "LZERO":
+							loc[e.Arg], locKnown[e.Arg] = 0, true
+						case "LINC":
+							loc[e.Arg]++
+						case "LSET":
+							locKnown[e.Arg] = false
+						case "NEWPACK":
+							rc, known = 0, true
+						case "SETCOUNT":
+							switch {
+							case e.Arg == "++" || e.Arg == "+=1":
+								rc++
+							case e.Arg == "=0":
+								rc, known = 0, true
+							case strings.HasPrefix(e.Arg, "="):
+								n := strings.TrimPrefix(e.Arg, "=")
+								rc, known = loc[n], locKnown[n]
+							default:
+								known = false
+							}
+						case "SEND":
+							if !known {
+								cnt = append(cnt, "the RecordCount of a pack that is sent is not derived from the records written")
+							} else if rc != written {
+								cnt = append(cnt, fmt.Sprintf("a pack holding %d records is sent with RecordCount %d", written, rc))
+							}
+						}
+					}
+				}
 				// each WRITE followed by exactly one RecordCount++ before the next WRITE/SEND
 				for i, e := range pa {
-					if e.Kind == "WRITE" {
+					if e.Kind == "WRITE" && !localCounter {
 						n := 0
 						for j := i + 1; j < len(pa) && pa[j].Kind != "WRITE" && pa[j].Kind != "SEND"; j++ {
 							if pa[j].Kind == "SETCOUNT" && (pa[j].Arg == "++" || pa[j].Arg == "+=1") {
@@ -469,6 +739,9 @@ func c16Paths(p *core.Program, r *core.Report) {
 			fileProbs(r, "C16.count", name, pos, cnt, "one RecordCount++ per record written")
 			fileProbs(r, "C16.alias", name, pos, alias, "Records is a copy or freshly compressed storage on every path reaching the client")
 			fileProbs(r, "C16.zip", name+" fresh pack per batch", pos, zp, "NewZipPack() after every send")
+			if tn == "ZipSendProxyThread" {
+				fileProbs(r, "C16.zip", name+" compression at send", pos, zipAtSend(ps), "compressed iff Status==0 && len(Records) >= min; ZIPPED exactly then")
+			}
 		case "doZip":
 			ps, _ := paths.Enumerate(fi.Decl.Body, z.config(false))
 			var zp []string
@@ -665,4 +938,64 @@ func fileProbs(r *core.Report, rule, c, pos string, probs []string, okmsg string
 	} else {
 		r.OK(rule, c, pos, okmsg)
 	}
+}
+
+// isIntLocal: an identifier that denotes an integer-typed local variable (not a field, not a parameter
+// of pointer type, not package-level).
+func isIntLocal(info *types.Info, id *ast.Ident) bool {
+	v, ok := info.ObjectOf(id).(*types.Var)
+	if !ok || v.IsField() || v.Parent() == nil || v.Pkg() == nil || v.Parent() == v.Pkg().Scope() {
+		return false
+	}
+	b, ok := v.Type().Underlying().(*types.Basic)
+	return ok && b.Info()&types.IsInteger != 0
+}
+
+// zipAtSend: on every path that hands a pack to the client, what happened to that pack since it was
+// filled — compressed iff its Status was 0 and its Records reached the minimum size, flagged ZIPPED
+// exactly when compressed. Judged where the pack is sent, so it does not matter whether the
+// compression step is a method, a package function or written in line.
+func zipAtSend(ps []paths.Path) []string {
+	var zp []string
+	for _, pa := range ps {
+		if !pa.Consistent() {
+			continue
+		}
+		start := 0
+		for i, e := range pa {
+			if e.Kind != "SEND" {
+				continue
+			}
+			seg := pa[start:i]
+			start = i + 1
+			if !seg.Has("RECORDS") {
+				continue
+			}
+			comp := seg.Has("COMPRESS")
+			st := seg.HasArg("SETSTATUS", "pack.ZIPPED")
+			var g1, g2, saw1, saw2 bool
+			for _, c := range seg {
+				if c.Kind != "COND" {
+					continue
+				}
+				switch {
+				case strings.HasSuffix(strings.TrimSuffix(strings.TrimSuffix(c.Arg, "=true"), "=false"), ".Status==0"):
+					saw1, g1 = true, strings.HasSuffix(c.Arg, "=true")
+				case strings.Contains(c.Arg, ".Records)>=") && strings.Contains(c.Arg, "ogsinkZipMinSize"):
+					saw2, g2 = true, strings.HasSuffix(c.Arg, "=true")
+				}
+			}
+			switch {
+			case comp != st:
+				zp = append(zp, "Status=ZIPPED and compression do not go together on a path to the client: "+seg.String())
+			case comp && !(g1 && g2):
+				zp = append(zp, "a pack is compressed without Status==0 && len(Records) >= logsinkZipMinSize: "+seg.String())
+			case !comp && saw1 && saw2 && g1 && g2:
+				zp = append(zp, "a pack that reached the minimum size is sent uncompressed: "+seg.String())
+			case !saw1 && !comp:
+				zp = append(zp, "a pack reaches the client without the compression step having looked at it: "+seg.String())
+			}
+		}
+	}
+	return uniq(zp)
 }
